@@ -23,8 +23,9 @@ DATATYPES_UNKNOWN = [
     "http://ex.org/dt/a", "http://ex.org/dt/b", "urn:dt:c", "http://ex.org/dt#d",
     "dtnosep", "http://ex.org/dt/é",
 ]
-BNODES = ["b0", "b1", "b2", "b3", "n-4", "B5"]
+BNODES = ["b0", "b1", "b2", "b3", "n-4", "B5", "a", "g"]     # "a", "g": also IRIs without separator and lexical forms
 BNODES_GEN = BNODES + ["", "b é"]      # generic API only: any string is a label
+LANG_SPELLINGS = [["en", "EN"], ["pl"], ["en-gb", "en-GB"], ["de", "DE", "De"]]
 
 
 def rng_for(*parts: Any) -> random.Random:
@@ -53,7 +54,8 @@ class Vocab:
         dts = rng.sample(DATATYPES_UNKNOWN, min(n_dt, len(DATATYPES_UNKNOWN)))
         self.datatypes = dts + [XSD_STRING] + ([XSD + "integer"] if rng.random() < .5 else []) + \
             ([XSD + "boolean"] if rng.random() < .4 else [])
-        self.langs = LANGS_11 if mode == "rdf11" else LANGS_GEN
+        # rdf11: ONE spelling per language tag per input (rdflib compares tags case-insensitively), but not always lower case
+        self.langs = [rng.choice(sp) for sp in LANG_SPELLINGS] if mode == "rdf11" else LANGS_GEN
         self.p_sepless = rng.choice([0.0, 0.1, 0.3])
         self.hot = rng.random() < 0.5
 
@@ -77,6 +79,9 @@ class Vocab:
         return ("iri", ns + loc)
 
     def bnode(self) -> tuple:
+        if self.mode != "rdf11" and self.rng.random() < .12:
+            # a label that is, as a string, one of the stream's IRIs (kinds must not be confused by value)
+            return ("bnode", self.iri()[1])
         return ("bnode", self.rng.choice(BNODES if self.mode == "rdf11" else BNODES_GEN))
 
     def literal(self) -> tuple:
